@@ -1,5 +1,6 @@
 CONSTANTS
   Top = "A"
+  ShadowRebuilt = TRUE
   Sub = {"B", "C", "D"}
   Res = {"p1", "p2", "p3", "a1", "a2"}
   TopRes = {"p1", "p2", "a1"}
@@ -11,15 +12,18 @@ INVARIANT TypeOK
 INVARIANT C03_RevokedWhileRelevant
 INVARIANT C03_CurrentNotRevoked
 INVARIANT C14_NumbersAgree
+INVARIANT C14_ValidityContainsNow
+INVARIANT C14_StorePublished
 INVARIANT C01_ManifestExact
 INVARIANT RpMatches
 INVARIANT SettledAgreed
-INVARIANT C01_Clean
-INVARIANT C01_Vrps
-INVARIANT C02_NoOverclaim
+INVARIANT T_C01_Clean
+INVARIANT T_C01_Vrps
+INVARIANT T_C02_NoOverclaim
 INVARIANT C02_Converged
 INVARIANT C04_KeysHaveCerts
-INVARIANT C04_PubKeysMatch
+INVARIANT T_C04_PubKeysMatch
+INVARIANT C19_RemovalRemoves
 PROPERTY TraceStepProps
 POSTCONDITION TraceAccepted
 CHECK_DEADLOCK FALSE
